@@ -195,8 +195,9 @@ class Harness:
     def __init__(self, ctx, exe):
         self.ctx, self.exe = ctx, exe
         self.abort = None
+        self.nabort = 0
 
-    def run(self, lines, costs=None, timeout=3000):
+    def run(self, lines, costs=None, timeout=1500):
         """Run op lines in parallel (dynamic small batches). Returns the list of output lines (None where the harness died)."""
         n = len(lines)
         if n == 0:
@@ -212,12 +213,18 @@ class Harness:
             rc, out, err = vlib.run_lines([self.exe], [lines[i] for i in idx], timeout=timeout)
             if rc == 0 and len(out) == len(idx):
                 return [(i, o) for i, o in zip(idx, out)]
-            # something aborted: replay one line at a time to find it
-            r = []
+            # something aborted (sanitizer, assert, crash, watchdog): replay one line at a time to find it. After three aborting
+            # lines the rest of the batch is given up (every one of them may wait for the watchdog).
+            r, bad = [], 0
             for i in idx:
+                if bad >= 3:
+                    r.append((i, None))
+                    continue
                 rc1, o1, e1 = vlib.run_lines([self.exe], [lines[i]], timeout=timeout)
                 if rc1 != 0 or len(o1) != 1:
                     r.append((i, None))
+                    bad += 1
+                    self.nabort += 1
                     if self.abort is None:
                         self.abort = (lines[i], e1, rc1)
                 else:
@@ -532,7 +539,7 @@ def build_cases(ctx, H):
         # mutants of the corpus files
         if not big:
             hows = ["trunc", "flip", "byte", "insert", "delete", "append", "headflip", "trunc-tail"]
-            for _ in range(2 if quick else 8):
+            for _ in range(3 if quick else 6):
                 m = mutate(rng, data, rng.choice(hows))
                 dec = {"xz": rng.choice(["sd:%d:0" % rng.choice(sd_flags), "auto:%d:0" % CONCAT, "sdmt:0:2:0:0:0"]),
                        "lzma": rng.choice(["alone:0", "auto:0:0"]), "lz": rng.choice(["lzip:%d:0" % CONCAT, "lzip:0:0", "auto:0:0"])}[name.rsplit(".", 1)[1]]
@@ -582,7 +589,7 @@ def build_cases(ctx, H):
         for k, pl in (plains if not quick else rng.sample(plains, 3)):
             if heavy and len(pl) not in (0, 40, 300, 4000) and rng.random() < 0.8:
                 continue
-            if not quick and rng.random() < 0.6 and len(pl) > 100:
+            if not quick and rng.random() < 0.75 and len(pl) > 100:
                 continue
             enc("easy:%d:%d" % (p, rng.choice(checks)), pl, "xz", dict(level="light" if heavy or (p & EXTREME and len(pl) > 1000) else level_for(len(pl))))
         if not heavy or not quick:
@@ -592,7 +599,7 @@ def build_cases(ctx, H):
     for (ss, ts) in chains:
         has_bcj = any(b in ss for b in BCJ)
         for k, pl in (plains if not quick else rng.sample(plains, 2) + [p for p in plains if len(p[1]) == 4000 and p[0] == "code"][:1 if has_bcj else 0]):
-            if not quick and rng.random() < 0.5:
+            if not quick and rng.random() < 0.7:
                 continue
             ck = rng.choice(checks)
             enc("se:%d:%s" % (ck, ss), pl, "xz", dict(level=level_for(len(pl)), twin="se:%d:%s" % (ck, ts), bcj=has_bcj))
@@ -697,7 +704,7 @@ def build_cases(ctx, H):
                 cat = comp + bytes(4 * rng.randrange(0, 3)) + other + bytes(4 * rng.randrange(0, 2))
                 C.sweep("sd:%d:0" % CONCAT, cat, "a", level_for(len(cat), 8000), None, rng.choice("FR"), "gen-xz-concat")
                 C.sweep("fileinfo:0", cat, "i", "mt", 800, "F", "gen-xz-concat")
-        for _ in range(1 if quick else 3):
+        for _ in range(2 if quick else 3):
             m = mutate(rng, comp, rng.choice(hows))
             dec = rng.choice(["sd:%d:0" % rng.choice(sd_flags), "sd:0:0", "auto:0:0", "sdmt:0:%d:0:0:0" % rng.choice((1, 2, 4))])
             mt = dec.startswith("sdmt")
@@ -994,7 +1001,8 @@ def oracle(ctx, H):
             nviol += 1
     if H.abort is not None:
         ln, err, rc = H.abort
-        ctx.violation("harness-abort", {"kind": "implementation aborted (sanitizer/assert/crash/timeout) while being driven by run_sliced", "op": ln[:200000], "rc": rc, "stderr": err[-3000:]}, True)
+        ctx.violation("harness-abort", {"kind": "implementation aborted (sanitizer / assert / crash / lzma_code() not returning: watchdog) while being driven by run_sliced",
+                                        "op": ln[:200000], "rc": rc, "stderr": err[-3000:], "aborting_ops_seen": H.nabort}, True)
         nviol += 1
     ctx.cov["correspondence"]["oracle"] = {"sweeps": len(C.sweeps), "groups": len(C.groups), "coder_runs": total_runs, "violations": nviol,
                                            "wall_s": round(time.time() - t0, 1)}
